@@ -167,6 +167,11 @@ func (s *Scanner) scanEscape(quote rune) bool {
 		s.advance()
 		return true
 	default:
+		// the range covers the backslash and the escaped character (if there is one on this line)
+		escapeLen := uint(2)
+		if next := s.peekNext(); next == eof || next == '\n' {
+			escapeLen = 1
+		}
 		s.err(
 			ddperror.SYN_MALFORMED_LITERAL,
 			token.Range{
@@ -176,7 +181,7 @@ func (s *Scanner) scanEscape(quote rune) bool {
 				},
 				End: token.Position{
 					Line:   s.line,
-					Column: s.column + 2,
+					Column: s.column + escapeLen,
 				},
 			},
 			fmt.Sprintf("Unbekannte Escape Sequenz '\\%v'", s.peekNext()),
